@@ -167,7 +167,7 @@ def oracle_multi(*fns, orders=('r1', 'r2', 'r3'), shear=False, count=None):
         for fn in fns:
             fn(objs, st)
         # every property quantifies over objects however they were reached: a reused object must equal a fresh one
-        hobjs = [o_ for o_ in objs if o_[0].get('kwargs', {}).get('order') in orders][:: max(1, len(objs) // (6 if ctx.thorough else 3))]
+        hobjs = [o_ for o_ in objs if o_[0].get('kwargs', {}).get('order') in orders][:: max(1, len(objs) // (8 if ctx.thorough else 4))]
         oracles.oracle_history(hobjs, st, seed=ctx.seed)
         return st.out()
     run.fns = fns
